@@ -1419,7 +1419,8 @@ OBLIGATIONS = {
     # the steps of every kind sit in a plain block of the scope the macro is called in (no closure / thread / box of
     # the macro's own between the caller's locals and the branch expressions)
     # + an operand is MOVED into its documented call (no `&operand`, no clone: the emitters print the operand as it stands)
-    "C19": [("steps", "JoinOutput::join_steps"), ("steps", "JoinOutput::generate_step_tail"), ("gen", "JoinOutput::generate_handle"), ("top", "JoinOutput::to_tokens"), ("core", "ProcessExpr::to_tokens"), ("core", "ErrExpr::to_tokens"), ("core", "InitialExpr::to_tokens"),
+    # + a loose initial value is grouped by PARENTHESES (a place expression stays a place), never moved into a block
+    "C19": [("gen", "JoinOutput::generate_def_and_step_streams"), ("steps", "JoinOutput::join_steps"), ("steps", "JoinOutput::generate_step_tail"), ("gen", "JoinOutput::generate_handle"), ("top", "JoinOutput::to_tokens"), ("core", "ProcessExpr::to_tokens"), ("core", "ErrExpr::to_tokens"), ("core", "InitialExpr::to_tokens"),
             ("gen", "JoinOutput::expand_process_expr")],
     "C08": [("gen", "JoinOutput::generate_step_branch"), ("sep", "is_block_expr"), ("steps", "JoinOutput::generate_thread_builders_and_spawn_joiners"), ("steps", "JoinOutput::generate_step_tail"), ("steps", "lemma_concat_all"),
             ("core", "construct_thread_builder_name"), ("core", "construct_thread_builder_fn_name")],
